@@ -13,7 +13,7 @@ from sim.canon import Log, dec_table, enc_table, canon_row, canon_cell
 from sim.catalogue import RECIPES, NAMES, World, _csv_bytes
 from sim.core import outcome, draw_config
 from sim.devices import LongTable, SimTable, PoisonedTail
-from sim.gen import gen_table
+from sim.gen import gen_table, gen_sorted_table, sorted_row
 from sim.loader import load_petl
 from sim.viewcase import build, StageWorld
 
@@ -66,6 +66,14 @@ CONSUMERS = ['next', 'next', 'next', 'islice', 'head', 'look', 'lookstr',
 TWICE = ('list-head', 'len-head', 'tuple-rowslice')
 
 
+# stages whose output can depend on where an input ends (rows of a second
+# table or of a longer column come after the first is exhausted; the
+# *usingcontext operators see "no next row"): the period argument below does
+# not apply to pipelines containing them
+END_SENSITIVE = ('addcolumn', 'addcolumn-view', 'annex', 'cat', 'stack',
+                 'selectusingcontext', 'addfieldusingcontext')
+
+
 def budget(tier):
     if tier == 'quick':
         return {'cases': 12000, 'wall_cap_s': 240}
@@ -100,9 +108,17 @@ def gen_case(rng, tier, g):
         nf = 5
     if rec.profile == 'containers':
         prof = 'containers'
-    tables = [gen_table(rng, 20, minrows=8, nfields=nf, ragged=False,
-                        profile=prof)
-              for _ in range(rec.nsrc)]
+    if rec.profile == 'sorted':
+        # endless sorted tables (key groups of 1, 2, 3 rows; the second one
+        # holds every second row of the first)
+        nf = 5
+        tables = [enc_table(gen_sorted_table(rng.randint(12, 20), nf,
+                                             stride=i + 1))
+                  for i in range(rec.nsrc)]
+    else:
+        tables = [gen_table(rng, 20, minrows=8, nfields=nf, ragged=False,
+                            profile=prof)
+                  for _ in range(rec.nsrc)]
     # build sides stay short
     for bi in rec.build:
         tables[bi] = gen_table(rng, 8, minrows=0, nfields=nf, ragged=False)
@@ -159,18 +175,47 @@ def _lookahead(stack):
     if any(k is None for k in kinds):
         return None, None
     la = sum(k[1] for k in kinds)
+    if any(k[0] == 'filter-end' for k in kinds):
+        return 'filter-end', la
     if any(k[0] == 'filter' for k in kinds):
         return 'filter', la
     return 'map', la
 
 
-def _factory(total, poison):
+def _header_cost(stack):
+    """Rows the pipeline needs from its sources to produce its header row
+    (declared look-aheads; unbounded when a stage that needs sample rows
+    sits above a filter-like one)."""
+    need = 0
+    for n, _ in reversed(stack):
+        st = RECIPES[n].stream
+        if st is None:
+            return 10 ** 9
+        if st[0] in ('filter', 'filter-end') and need > 0:
+            return 10 ** 9
+        need += st[1]
+    return need
+
+
+def _factory(total, poison, sorted_profile=False):
     def make(i, t, rec=None):
         n = len(t) - 1
 
         def filler(j, t=t, n=n):
+            if sorted_profile:
+                return sorted_row(j, len(t[0]), stride=i + 1)
             return t[1 + (j - 1) % n]
-        lt = LongTable(t, total, filler, mode='copy', name='s%d' % i)
+        # (sorted profile: source i holds every (i+1)-th row of source 0, so
+        # it must end where source 0 ends)
+        if sorted_profile:
+            # both tables end with the same row: source 1 has tb rows, the
+            # last one being row 2*(tb-2) of source 0, which is source 0's
+            # last row as well
+            tb = max(4, total // 2)
+            tot = tb if i else 2 * tb - 2
+        else:
+            tot = total
+        lt = LongTable(t, tot, filler, mode='copy', name='s%d' % i)
         lt.poison = poison
         return lt
     return make
@@ -256,7 +301,8 @@ def _one_length(e, case, total, log, sb, poison):
     items = RECIPES[stack[-1][0]].items
     streamed = [i for i in range(rec.nsrc) if i not in rec.build]
 
-    fac = _factory(total, poison if kind == 'map' else None)
+    fac = _factory(total, poison if kind == 'map' else None,
+                   sorted_profile=rec.profile == 'sorted')
 
     def table_factory(i, t):
         if i in rec.build:
@@ -282,7 +328,7 @@ def _one_length(e, case, total, log, sb, poison):
                 if st is None:
                     below = 10 ** 9
                     break
-                if st[0] == 'filter' and below > 0:
+                if st[0] in ('filter', 'filter-end') and below > 0:
                     below = 10 ** 9
                     break
                 below += st[1]
@@ -376,7 +422,39 @@ def _one_length(e, case, total, log, sb, poison):
         for tid in res:
             pulls[tid] = [w.s[i].pulls('data', tid) for i in range(rec.nsrc)]
             log.add('pulls', tid, res[tid], pulls[tid])
-        exhausted = any(w.s[i].pulls('data') >= total - 1 for i in streamed)
+        if kind == 'filter' and not any(n in END_SENSITIVE for n, _ in stack) \
+                and _header_cost(stack) < 10 ** 9:
+            # A filter-like pipeline has no fixed rows-in per row-out, but
+            # the sources repeat with period P (the prefix rows, cycled; the
+            # sorted profile repeats its pattern every 12 rows): a consumer
+            # that got ALL the rows it asked for cannot have needed more than
+            # a few periods per row.  (One left wanting reads on to the end,
+            # legitimately.)  This is what exposes a full scan that the
+            # length comparison cannot see, because a full scan always
+            # exhausts the short source.
+            for ti, c in enumerate(cons):
+                tid = 'c%d' % ti
+                if c['kind'] in ('look', 'lookstr', 'see', 'repr_html',
+                                 'header', 'fieldnames') + TWICE:
+                    continue
+                d, done_ = res.get(tid, (0, True))
+                if done_ or d != _demand(c) or d == 0:
+                    continue
+                for i in streamed:
+                    period = 12 if rec.profile == 'sorted' \
+                        else max(1, len(tables[i]) - 1)
+                    bound = 3 * period * (d + 2) + la
+                    if pulls[tid][i] > bound and total > bound + 50:
+                        raise _Bad('filter-scans-too-far',
+                                   'consumer %s asked for %d rows and got '
+                                   'them, but %d data rows were pulled from '
+                                   'source %d (its rows repeat with period '
+                                   '%d; bound %d)'
+                                   % (tid, d, pulls[tid][i], i, period,
+                                      bound))
+        exhausted = any(w.s[i].pulls('data') >= getattr(w.s[i], 'total',
+                                                         total) - 1
+                        for i in streamed)
         return res, pulls, exhausted
     finally:
         its = None
